@@ -200,3 +200,126 @@ c.returns("content_unaltered", "FILE(out_content) == old(FILE(encrypted_firmware
 c.returns("info", "FILE(out_info) == encryption_info(old(FILE(encrypted_firmware))[:12], (-5 if kw_alg.value == 'aes-kw-256' else -6), key_id, old(FILE(encrypted_key)))")
 c.raises("ValueError")
 c.raises("FileNotFoundError")
+
+
+# ================================================================================================
+# B — bounded stand-in through the CLI entry point `cmd_encrypt.main` with a real key; independent oracle:
+# pycryptodome AES-GCM, hashlib, own CBOR reader.  Labelled bounded; never counted as proved.
+# ================================================================================================
+def _read_info(info):
+    """Independent reading of the encryption info: returns (protected bytes, iv, alg of recipient, key id, cek)."""
+    from bounded import cborx
+    inner = cborx.decode_all(info, strict=True)
+    assert isinstance(inner, bytes), "not bstr-wrapped"
+    t = cborx.decode_all(inner, strict=True)
+    assert isinstance(t, cborx.Tag) and t.tag == 96, "not COSE_Encrypt_Tagged (tag 96)"
+    prot, unprot, ct, recips = t.value
+    assert cborx.decode_all(prot, strict=True) == cborx.Map([(1, 3)]), "protected header is not {1: 3} (AES-GCM-256)"
+    assert ct is None
+    assert isinstance(unprot, cborx.Map) and unprot.keys() == [5], "unprotected header must carry exactly the IV"
+    assert len(recips) == 1
+    rp, ru, rc = recips[0]
+    assert rp == b""
+    kid = cborx.decode_all(ru.get(4), strict=True)
+    return prot, unprot.get(5), ru.get(1), kid, rc
+
+
+def run_encrypt_case(B, size, key_id, hash_alg, reuse=None):
+    """One encrypt-and-generate through cmd_encrypt.main; returns (case, message or None, iv)."""
+    import importlib, hashlib
+    from contracts import specs_native as N
+    m = importlib.import_module("suit_generator.cmd_encrypt")
+    d = B.fresh_dir("e")
+    key = bytes((i * 13 + 5) & 0xFF for i in range(32))
+    open(f"{d}/k.bin", "wb").write(key)
+    fw = bytes((i * 31 + size) & 0xFF for i in range(size))
+    open(f"{d}/fw.bin", "wb").write(fw)
+    from pyvc import front
+    case = {"mode": "encrypt-and-generate", "size": size, "key_id": key_id, "hash_alg": hash_alg}
+    try:
+        m.main(encrypt_subcommand="encrypt-and-generate", firmware=f"{d}/fw.bin", key_name="k", key_id=key_id, context=d,
+               hash_alg=hash_alg, kw_alg="direct", kms_script=f"{front.REPO}/ncs/basic_kms.py",
+               encrypt_script=f"{front.REPO}/ncs/encrypt_script.py", output_dir=d)
+        info = open(f"{d}/suit_encryption_info.bin", "rb").read()
+        content = open(f"{d}/encrypted_content.bin", "rb").read()
+        digest = open(f"{d}/plain_text_digest.bin", "rb").read()
+        size_txt = open(f"{d}/plain_text_size.txt").read()
+        prot, iv, ralg, kid, cek = _read_info(info)
+        if len(iv) != 12:
+            return case, f"published IV has {len(iv)} bytes, not 12", iv
+        if ralg != -6 or kid != key_id or cek is not None:
+            return case, f"recipient does not name direct/-6 and key id {key_id}: {ralg}, {kid}, {cek}", iv
+        aad = N.ENC(["Encrypt", prot, b""])
+        try:
+            pt = N.AESGCM_DEC(key, iv, content[16:], content[:16], aad)
+        except Exception as e:  # noqa: BLE001
+            return case, f"AES-GCM decryption with the published IV / Enc_structure / tag||ciphertext fails: {e}", iv
+        if pt != fw:
+            return case, "decrypts to something else than the firmware", iv
+        name, n = {"sha-256": ("sha256", 32), "sha-384": ("sha384", 48), "sha-512": ("sha512", 64), "shake128": ("shake128", 16), "shake256": ("shake256", 32)}[hash_alg]
+        if digest != N.HASH(name, n, fw):
+            return case, "digest file does not describe the plaintext", iv
+        if size_txt != str(len(fw)):
+            return case, f"size file {size_txt!r} != {len(fw)}", iv
+        # create accepts the info unchanged as a raw / file encryption-info parameter
+        sec = importlib.import_module("suit_generator.suit.security")
+        for form in ({"file": f"{d}/suit_encryption_info.bin"}, {"raw": info.hex()}):
+            if sec.SuitEncryptionInfo.from_obj(form).to_cbor() != info:
+                return case, f"create re-encodes the info differently for {list(form)[0]}", iv
+        # generate-info on iv||tag||ciphertext gives the same artifact layout without altering a byte
+        blob = iv + content
+        open(f"{d}/blob.bin", "wb").write(blob)
+        open(f"{d}/cek.bin", "wb").write(b"")
+        d2 = B.fresh_dir("g")
+        m.main(encrypt_subcommand="generate-info", encrypted_firmware=f"{d}/blob.bin", encrypted_key=f"{d}/cek.bin", key_id=key_id,
+               kw_alg="direct", encrypt_script=f"{front.REPO}/ncs/encrypt_script.py", output_dir=d2)
+        if open(f"{d2}/encrypted_content.bin", "rb").read() != content:
+            return case, "generate-info altered tag||ciphertext", iv
+        p2, iv2, ralg2, kid2, cek2 = _read_info(open(f"{d2}/suit_encryption_info.bin", "rb").read())
+        if (iv2, ralg2, kid2) != (iv, -6, key_id):
+            return case, "generate-info publishes a different IV / recipient", iv
+        return case, None, iv
+    except AssertionError as e:
+        return case, f"encryption info malformed: {e}", None
+    except Exception as e:  # noqa: BLE001
+        return case, f"unexpected {type(e).__name__}: {e}", None
+
+
+def bounded(ctx):
+    from bounded.harness import Bounded
+    quick = ctx["tier"] == "quick"
+    sizes = [0, 1, 15, 16, 17, 31, 32, 33, 255, 256, 4095, 4096, 4097, 8192, 12288] + ([] if quick else [65535, 65536, 70000, 131072])
+    key_ids = [0, 1, 23, 24, 255, 256, 65535, 65536, 2 ** 31, 2 ** 32 - 1, 0x7FFFFFFF]
+    algs = ["sha-256", "sha-384", "sha-512", "shake128", "shake256"]
+    B = Bounded(ctx, rule="cmd_encrypt.main (both sub-commands) with a real AES-256 key; artifacts read back with an independent CBOR reader, "
+                          "decrypted with pycryptodome, digests with hashlib; non-trivial = every case (distinct by size, key id, digest)",
+                bound=f"plaintext sizes {sizes}; key ids {key_ids}; digests {algs}; one factor varied at a time plus a diagonal", budget_s=60 if quick else 600)
+    ivs = []
+    cases = [(s, key_ids[i % len(key_ids)], algs[i % len(algs)]) for i, s in enumerate(sizes)]
+    cases += [(1000 + i, k, algs[i % 5]) for i, k in enumerate(key_ids)]
+    cases += [(4096 * (1 + i % 3), 5, a) for i, a in enumerate(algs)]
+    for size, kid, alg in cases:
+        if B.out_of_time():
+            break
+        case, msg, iv = run_encrypt_case(B, size, kid, alg)
+        B.case((size, kid, alg), sample=case)
+        if msg:
+            B.fail("artifacts-consistent", case, msg)
+    return B.done()
+
+
+def replay_case(case):
+    from bounded.harness import Bounded
+    B = Bounded({"tier": "quick", "seed": 0}, "", "")
+    try:
+        _, msg, _ = run_encrypt_case(B, case["size"], case["key_id"], case["hash_alg"])
+        return msg is None, msg
+    finally:
+        B.done()
+
+
+ASSUMPTIONS = [
+    "AES-GCM correctness (cryptography.hazmat AESGCM): decrypt(key, n, AESGCM_ENC(key, n, p, aad), aad) == p; output = ciphertext || 16-byte tag",
+    "os.urandom returns fresh, unpredictable bytes",
+    "Encryptor.init_kms_backend / _import_encryptor (importlib plug-in loading) yield the shipped basic_kms.SuitKMS / encrypt_script.Encryptor",
+]
